@@ -363,7 +363,7 @@ class BaseOptimizer(metaclass=ABCMeta):
             crvs = set()
         idx_joint = tuple(self._all_vars - (rvs | crvs))
         idx_crvs = tuple(self._all_vars - crvs)
-        idx_subrvs = [tuple(self._all_vars - set(ss)) for ss in sorted(powerset(rvs), key=len)[1:-1]]
+        idx_subrvs = [tuple(self._all_vars - (set(ss) | crvs)) for ss in sorted(powerset(rvs), key=len)[1:-1]]
         power = [(-1)**len(ss) for ss in sorted(powerset(rvs), key=len)[1:-1]]
         power += [(-1)**len(rvs)]
         power += [-sum(power)]
